@@ -644,10 +644,37 @@ def check_stack_headroom(drv, pristine, acc, only=None):
         finally:
             sys.setrecursionlimit(old)
 
+    def run_resumed_deeper(call, obj, falsy, h):
+        # an async call whose first step is taken with plenty of stack and whose later steps are taken with ``h`` frames left
+        # (a coroutine resumed by a driver which sits deeper in the stack than the one which started it)
+        ns["T"].clear()
+        if falsy:
+            ns["T"][falsy] = False
+        del ns["TRACE"][:]
+        ns["FAULT"].update({"at": None, "kind": None, "count": 0, "obj": None, "armed": False})
+        coro = drv.invoke(call, obj)
+        try:
+            coro.send(None)
+        except StopIteration as stop:
+            return ("ret", stop.value is ns["R"])
+        except BaseException as exc:  # noqa
+            return ("exc", exc)
+
+        def rest():
+            try:
+                while True:
+                    coro.send(None)
+            except StopIteration as stop:
+                return ("ret", stop.value is ns["R"])
+        try:
+            return at_depth(rest, h)
+        except BaseException as exc:  # noqa
+            return ("exc", exc)
+
     for call, (is_async, conds) in CALLS.items():
         if only is not None and call != only:
             continue
-        for falsy in [None] + conds[:1]:
+        for falsy, deeper in [(f, d) for f in [None] + conds[:1] for d in ((False, True) if is_async else (False,))]:
             outcomes = set()
             for h in HEADROOMS:
                 def one():
@@ -655,25 +682,29 @@ def check_stack_headroom(drv, pristine, acc, only=None):
                     ns["FAULT"]["armed"] = False
                     obj = ns["K"](ns["Arg"]())
                     try:
-                        res = at_depth(lambda: drv.run(call, obj, falsy), h)
-                        outcome = summarize(res[1])
+                        if deeper:
+                            outcome = summarize(run_resumed_deeper(call, obj, falsy, h))
+                        else:
+                            res = at_depth(lambda: drv.run(call, obj, falsy), h)
+                            outcome = summarize(res[1])
                     except RecursionError:
                         outcome = ("exc", "RecursionError")
                     ns["FAULT"]["armed"] = False
                     return outcome, probes(drv, obj)
                 outcome, obs = core.fresh_ctx_run(one)
                 outcomes.add(outcome)
-                acc.case(("headroom", call, falsy, h), True, sum(len(o[2]) for o in obs), outcome)
+                acc.case(("headroom", call, falsy, h, deeper), True, sum(len(o[2]) for o in obs), outcome)
                 if obs != pristine:
                     a, b = next((a, b) for a, b in zip(pristine, obs) if a != b)
                     acc.violation(core.Violation(
-                        PROP, "not_rearmed", {"call": call, "falsy": falsy, "plan": "headroom", "kind": "RecursionError", "headroom": h},
-                        "after {}(falsy={}) was called with {} stack frames left (it ended with {}): probe {}(falsy={}) pristine trace/outcome "
-                        "{} {} but now {} {}".format(call, falsy, h, outcome, a[0], a[1], list(a[2]), a[3], list(b[2]), b[3]),
+                        PROP, "not_rearmed", {"call": call, "falsy": falsy, "plan": "headroom", "kind": "RecursionError", "headroom": h, "resumed_deeper": deeper},
+                        ("after {}(falsy={}) was {} with {} stack frames left (it ended with {}): probe {}(falsy={}) pristine trace/outcome "
+                         "{} {} but now {} {}").format(call, falsy, "started with plenty of stack and resumed" if deeper else "called", h, outcome,
+                                                      a[0], a[1], list(a[2]), a[3], list(b[2]), b[3]),
                         spec={"headroom": [call, falsy, h]}, script=SRC))
                     break
             else:
-                if ("exc", "RecursionError") not in outcomes or len(outcomes) < 2:
+                if not deeper and (("exc", "RecursionError") not in outcomes or len(outcomes) < 2):
                     raise RuntimeError("harness: the headroom sweep for {} does not span both the exhausted and the sufficient stack: {}".format(call, outcomes))
     acc.sample({"stack_headroom": [HEADROOMS[0], HEADROOMS[-1]], "calls": sorted(CALLS)}, cap=1)
 
@@ -781,7 +812,7 @@ def run(tier, t0):
              "error factory, __repr__, body, invariant, constructor, both halves of awaiting conditions/bodies) x fault kind "
              "(ValueError, TypeError, AttributeError, KeyError, BaseException subclass, KeyboardInterrupt; async: CancelledError raised inside, and throw/cancel/close "
              "at every suspension of a hand-driven coroutine, the closing also from ANOTHER context){}; every call also with each of 1..89 stack "
-             "frames of headroom left (RecursionError wherever it strikes, also inside the library); construction of a flyweight class checked "
+             "frames of headroom left (RecursionError wherever it strikes, also inside the library; async calls also started with plenty of stack and resumed with 1..89 frames left); construction of a flyweight class checked "
              "through __new__ faulted at every crossing of its invariant phase while its cache keeps the instance; after each: probe calls of every callable (all true + each "
              "condition falsy) in the same context, compared with the pristine-state observations; the surfaced exception must be "
              "or chain the injected one; non-trivial = every case".format(
